@@ -79,6 +79,20 @@ def run_case(cls, key, seed, ctx):
             ctx.ev("gamma_entries_compared")
             ctx.check(close(got[ent], ref[k], 1e-10, 1e-12), "gamma_entry_differs_from_definition", entry=repr(ent), defined_as=repr(k),
                       got=float(got[ent]), expected=ref[k], prediction=h.tolist(), wit=wit)
+    # a predictor may return its own stored float64 score array, the same object on every call: gamma must not depend on
+    # how often it was asked, nor write into the caller's array
+    hs = rng.random(ds.n)
+    keep = hs.copy()
+    fp_same = ML.FixedPredictor(hs, "same_array")
+    fp_same.vec = hs
+    ref = RM.gamma(kind, ds.y, ds.g, keep, ratio, ds.c)
+    for call in (1, 2, 3):
+        got = moment.gamma(fp_same)
+        for ent, k in mapping.items():
+            ctx.ev("gamma_entries_compared")
+            ctx.check(close(got[ent], ref[k], 1e-10, 1e-12), "gamma_changes_when_the_same_prediction_array_is_evaluated_again", call=call, entry=repr(ent),
+                      got=float(got[ent]), expected=ref[k], wit=wit)
+    ctx.check(bool(np.array_equal(hs, keep)), "gamma_overwrites_the_predictions_array_of_the_caller", before=keep[:6].tolist(), after=hs[:6].tolist(), wit=wit)
     b = moment.bound()
     for ent in mapping:
         ctx.ev("bound_entries_compared")
